@@ -34,6 +34,16 @@ CHECKS = {
          "Held on the payloads produced: generated transactions, every truncation, extensions, prefixes, all single-bit flips of small transactions, random bytes, zero-input encodings, under the flag x network matrix."),
  "C20": ("exploration","structural invariant at a hook, recomputed from the model's live tree at every quiescent point","4 C20",
          "Held on the histories produced (forks discarded at various depths, transactions shared between forks and spent in the same block, upgrades): tree = block cache = delta maps = live set, exact reference counts and tx outs, announced headers pruned, tip depths and per-block metrics exact."),
+ "C09": ("fault_enumeration","twin-run differential + before/after snapshot monitor with an upgrade injected at every message boundary","4 C09",
+         "Held on the scripts produced: upgrade before every message of fetch/ingest scripts (phases: idle, fetching, response stored, partial pages received, ingestion paused), with and without a config argument; every query answer equal before/after, next request initial, drained final state equal to the twin's; plus upgrades at random points of forked histories. One known finding (utxos_length) is matched by an exact defect model."),
+ "C11": ("exploration","differential against an own implementation of the consensus header rules (numeric targets, decisions with a scripted header store, real-chain replay, mined regtest end-to-end)","4 C11",
+         "Held on the chains and candidates produced on three networks; both directions of every rule."),
+ "C14": ("exploration","history monitor: must/may sets of announced headers x full endpoint/flag/network matrix at every state","4 C14",
+         "Held on every matrix cell of the states produced; between the certain and the possible header sets either outcome is accepted. The metrics endpoint cannot be called natively (ic0) and is not covered."),
+ "C17": ("exploration","decision monitor through the real fetch -> storage -> health -> target path with ic_http mocks and real transforms","4 C17",
+         "Held on the rounds produced for all five targets incl. stale-round scripts and provider permutations."),
+ "C18": ("exploration","invariant + metamorphic monitor on every endpoint transform","4 C18",
+         "Held on the responses produced: totality, no headers, status kept, canonical body, invariance under header/whitespace/member-order/extra-member variation."),
 }
 TRUST="native build of the canister crates with feature verif_hooks; reference model in harness/src/model.rs + parse.rs written from the statements; IC rollback-on-trap not emulated"
 props=[json.loads(l)["id"] for l in open("/verif/properties.jsonl")]
